@@ -48,16 +48,16 @@ class Ctx:
                 continue
             if q in exclude:
                 continue
-            out.append(self.contract_ob(q, v))
+            out.append(self.contract_ob(q, v, pid=pid))
         return out
 
-    def contract_ob(self, q, v=None, id=None):
+    def contract_ob(self, q, v=None, id=None, pid=None):
         meta = self.contracts.meta(q, v)
         try:
             where = self.loc(q)
         except AnalysisError as e:
             raise
-        r = self.contracts.check(q, v)
+        r = self.contracts.check(q, v, pid)
         short = q.replace("puan.logic.plog.", "plog.").replace("puan.modules.configurator.", "cc.").replace("puan.ndarray.", "nd.")
         oid = id or f"E2:{short}{'/' + v if v else ''}"
         detail = r.detail if r.status != "ok" else f"code ≡ reference ({meta.get('why', '')})"
